@@ -605,6 +605,9 @@ func (l *Lexer) shiftXML(rawTag Hash) []byte {
 			isComment := l.r.Peek(2) == '-'
 			l.r.Move(4)
 			for {
+				if l.skipTemplate() {
+					continue
+				}
 				if c = l.r.Peek(0); c == 0 || isComment && l.at('-', '-', '>') || !isComment && l.at(']', ']', '>') {
 					break
 				}
